@@ -30,6 +30,11 @@ SCHEDS = [{"sched": "free"}, {"sched": "pct", "sched_d": 2}, {"sched": "role", "
 def gen_cases(tier, seed):
     n = 800 if tier == "quick" else 12000
     r = random.Random(seed * 15487469 + 12)
+    for i in range(16 if tier == "quick" else 200):
+        driver = ["parblock", "parfile"][i % 2]
+        files = [{"p": "src/big%d" % k, "k": "f", "size": (8 << 20) + k, "seed": r.randrange(1, 1 << 30), "segs": None} for k in range(1 if driver == "parblock" else 8)]
+        yield {"stress": True, "spec": [{"p": "src", "k": "d"}] + files, "driver": driver, "updater": ["channel", "record"][(i // 2) % 2], "mode": "live",
+               "bs": r.choice([512, 4096]), "workers": r.choice([8, 16, 32]), "fs": "tmpfs"}
     for i in range(n):
         driver = ["parfile", "parblock"][i % 2]
         upd = ["record", "channel", "record", "channel", "noop"][i % 5]
@@ -64,8 +69,58 @@ def gen_cases(tier, seed):
                "plan": sch, "fs": "ext4"}
 
 
+def run_stress(case, res):
+    """Unsupervised: thousands of Copied updates from many workers at once (races inside the updater itself are not at
+    system-call boundaries, so the supervisor cannot force them; volume and real parallelism have to)."""
+    with core.Sandbox(case["fs"], "c12") as sb:
+        root = sb.root
+        tree.materialize(root, case["spec"])
+        total = sum(e["size"] for e in case["spec"] if e["k"] == "f")
+        argv = [PROBE_BIN["probe_xcp"], case["driver"], case["updater"], case["mode"], str(case["workers"]), str(case["bs"]), "--", "src", "dst"]
+        run = core.run_plain(argv, root, timeout=300)
+        if run.verdict != "exited":
+            res["inconc"].append("run-" + run.verdict)
+            return
+        stream, result = [], None
+        for line in run.stdout.splitlines():
+            try:
+                j = json.loads(line)
+            except ValueError:
+                continue
+            if j.get("t") == "result":
+                result = j
+            else:
+                stream.append(j)
+        if result is None:
+            res["inconc"].append("probe-no-result")
+            return
+        tag = "stress %s/%s/%s bs=%d w=%d" % (case["driver"], case["updater"], case["mode"], case["bs"], case["workers"])
+        sig0 = "%s:%s" % (case["driver"], case["updater"])
+        ssum = sum(j["v"] for j in stream if j["t"] == "size")
+        csum = sum(j["v"] for j in stream if j["t"] == "copied")
+        if result["ok"] and ssum != total:
+            res["viol"].append({"sig": sig0 + ":size-sum", "what": "sum of Size updates %d != total %d; %s" % (ssum, total, tag)})
+        s = c = 0
+        for k, j in enumerate(stream):
+            if j["t"] == "size": s += j["v"]
+            elif j["t"] == "copied": c += j["v"]
+            if c > s:
+                res["viol"].append({"sig": sig0 + ":copied-exceeds-announced", "what": "after %d updates: Copied total %d > Size total %d; %s" % (k + 1, c, s, tag)})
+                break
+        if csum > total:
+            res["viol"].append({"sig": sig0 + ":copied-exceeds-total", "what": "Copied updates sum to %d but only %d bytes exist to copy; %s" % (csum, total, tag)})
+        if not result["disconnected"]:
+            res["viol"].append({"sig": sig0 + ":channel-not-closed", "what": "copy() returned but the channel is still connected; " + tag})
+        res["counters"]["stress-runs"] = 1
+        res["counters"]["stress-updates-seen"] = len(stream)
+        res["evals"].append({"key": ["stress", case["driver"], case["updater"], case["bs"], case["workers"]]})
+
+
 def run_case(case):
     res = {"evals": [], "viol": [], "inconc": [], "counters": {}}
+    if case.get("stress"):
+        run_stress(case, res)
+        return res
     with core.Sandbox(case["fs"], "c12") as sb:
         root = sb.root
         tree.materialize(root, case["spec"])
